@@ -1,6 +1,7 @@
 (* Property C11 — the wallet database gives atomic, isolated, ordered key/value transactions.
    Only statements here; each is closed by [exact] of a lemma proved in KV/Proofs.v (Proofs2.v: bucket index invariant
-   and exact listing, Proofs3.v: nested-map refinement, Proofs4.v: no orphans) and followed by Print Assumptions.
+   and exact listing, Proofs3.v: nested-map refinement, Proofs4.v: no orphans, Proofs5.v: iterators of write
+   transactions) and followed by Print Assumptions.
    Model: KV/Model.v — masswallet/db/db.go (BytesPrefix, Update) and masswallet/db/ldb/leveldb.go (batch, transaction,
    levelBucket, batchIterator, levelIterator), one Gallina function per Go method.  goleveldb is environment:
    DB.Get = [s_get], DB.Write(batch) = [apply_log] (atomic, in recording order), a range iterator = the ascending
@@ -12,7 +13,7 @@
 From Coq Require Import List ZArith Sorted.
 Import ListNotations.
 Open Scope Z_scope.
-Require Import MW.KV.Model MW.KV.Proofs MW.KV.Proofs2 MW.KV.Proofs3 MW.KV.Proofs4.
+Require Import MW.KV.Model MW.KV.Proofs MW.KV.Proofs2 MW.KV.Proofs3 MW.KV.Proofs4 MW.KV.Proofs5.
 
 (* ---- atomicity *)
 (* Commit applies exactly the recorded log, Rollback nothing; db.Update with a failing function leaves the store as it
@@ -416,6 +417,101 @@ Theorem C11_seek : forall s h start limit key, keys_sorted s -> keys_bytes s -> 
 Proof. exact seek_exact. Qed.
 Print Assumptions C11_seek.
 
+(* ---- iterators created INSIDE a write transaction (levelIterator = a goleveldb snapshot iterator over the committed
+   range, followed by a batchIterator over the transaction's pending net puts; outside the property text, which speaks
+   of committed entries).  [new_iterator] is the repaired code: batchIterator.Seek / Reset start at
+   max(seek key, range start) ([bi_from], field [bi_lower]); the iterator field [it_clamp] = false gives the code as
+   first found ([new_iterator_gen false], [step_seek_unrepaired]). *)
+(* Seek(key) followed by Next() until false, on an iterator over Range{start, limit} created in a write transaction
+   with committed store s and pending batch b, yields two runs one after the other — the Go code does not merge them
+   by key:
+     A = the COMMITTED entries of the bucket (values as committed) with start <= key' < limit and key' >= key, ascending;
+     B = the pending net puts of the transaction (keys whose last operation in the batch is a put, with that value)
+         with start <= key' < limit and key' >= key, ascending.
+   Seek answers true iff there is any.  In particular nothing outside the range is ever yielded, whatever key is. *)
+Theorem C11_seek_write_tx : forall s b h start limit key,
+  keys_sorted s -> keys_bytes s -> batch_wf b -> keys_bytes (b_puts b) -> bytes_ok (h_path h) ->
+  let r := iter_seek (new_iterator s (Some b) h start limit) key in
+  let out := iter_current (snd r) ++ drain (S (length s + length (b_puts b))) (snd r) in
+  exists A B, out = A ++ B /\
+    (forall k v, In (k, v) A <->
+       s_get (inner_key (h_path h) k) s = Some v /\ user_range start limit k = true /\ ble key k = true) /\
+    (forall k v, In (k, v) B <->
+       fst (batch_get b (inner_key (h_path h) k)) = Some v /\ user_range start limit k = true /\ ble key k = true) /\
+    StronglySorted (fun a b => blt (fst a) (fst b) = true) A /\
+    StronglySorted (fun a b => blt (fst a) (fst b) = true) B /\
+    (fst r = true <-> out <> []).
+Proof. exact seek_write_tx. Qed.
+Print Assumptions C11_seek_write_tx.
+
+(* ... against the transaction's own view [commit s b] (committed entries overlaid with the batch's puts and deletes):
+   every entry the transaction sees in the range at or after key IS yielded; everything yielded lies in the range at
+   or after key and is a committed entry or an entry of the view; and if the batch has touched none of the committed
+   keys of the range at or after key, the yield is exactly what the transaction sees, every key once.
+   Without that premise "exactly", "ascending" and "each once" are all false: C11_write_iter_not_view_refuted. *)
+Theorem C11_seek_write_tx_view : forall s b h start limit key,
+  keys_sorted s -> keys_bytes s -> batch_wf b -> keys_bytes (b_puts b) -> bytes_ok (h_path h) ->
+  let r := iter_seek (new_iterator s (Some b) h start limit) key in
+  let out := iter_current (snd r) ++ drain (S (length s + length (b_puts b))) (snd r) in
+  let sees k v := s_get (inner_key (h_path h) k) (commit s b) = Some v /\ user_range start limit k = true /\ ble key k = true in
+  (forall k v, sees k v -> In (k, v) out) /\
+  (forall k v, In (k, v) out -> user_range start limit k = true /\ ble key k = true /\
+                                (s_get (inner_key (h_path h) k) s = Some v \/ sees k v)) /\
+  ((forall k v, s_get (inner_key (h_path h) k) s = Some v -> user_range start limit k = true -> ble key k = true ->
+                batch_view b (inner_key (h_path h) k) = None) ->
+   (forall k v, In (k, v) out <-> sees k v) /\ NoDup (map fst out)).
+Proof. exact seek_write_tx_view. Qed.
+Print Assumptions C11_seek_write_tx_view.
+
+(* the typing premises on the batch and the store follow from the index invariant (C11_index_invariant), and the
+   switch is a constant of the iterator: Seek and Next never change it, and [step_seek_unrepaired] (every iterator's
+   switch cleared after each step) is creating every iterator with [new_iterator_gen false] *)
+Theorem C11_seek_write_tx_premises :
+  (forall b, batch_idx_ok b -> keys_bytes (b_puts b)) /\ (forall s, store_ok s -> keys_bytes s) /\
+  (forall it k, it_clamp (snd (iter_seek it k)) = it_clamp it) /\ (forall it, it_clamp (snd (iter_next it)) = it_clamp it) /\
+  (forall s ob h a l, it_unclamp (new_iterator s ob h a l) = new_iterator_gen false s ob h a l) /\
+  (forall it, it_clamp it = false -> it_unclamp it = it).
+Proof.
+  exact (conj batch_idx_ok_keys_bytes (conj store_ok_keys_bytes (conj iter_seek_clamp (conj iter_next_clamp
+         (conj unclamp_new_iterator unclamp_id))))).
+Qed.
+Print Assumptions C11_seek_write_tx_premises.
+
+(* the batchIterator as first found (Seek / Reset took the seek key as it is): inside db.Update, bucket "ab" with
+   pending puts x = v and z = w, iterator over Range{"y", "{"}: Seek("a") answered x — OUTSIDE the range — and Next() z;
+   the repaired code answers z and then the end, which is also what the same iterator answers in a read transaction
+   once the puts are committed (goleveldb clamps a Seek below the range).  Witness: Proofs5.below_ops. *)
+Theorem C11_seek_below_range_unfixed_refuted :
+  Forall op_bytes below_ops /\
+  snd (step_seek_unrepaired (exec_seek_unrepaired init_state below_ops) (OSeek 0 [97])) = RIter true (Some [120]) [118] /\
+  user_range [121] [123] [120] = false /\
+  snd (step_seek_unrepaired (exec_seek_unrepaired init_state (below_ops ++ [OSeek 0 [97]])) (ONext 0)) = RIter true (Some [122]) [119] /\
+  snd (step (run below_ops) (OSeek 0 [97])) = RIter true (Some [122]) [119] /\
+  snd (step (run (below_ops ++ [OSeek 0 [97]])) (ONext 0)) = RIter false None [] /\
+  snd (step (run (below_ops ++ [OUEnd false; OBegin false; OTop false 5 [97; 98]; OIter 0 5 1 [121] [123]])) (OSeek 0 [97]))
+    = RIter true (Some [122]) [119] /\
+  snd (step (run (below_ops ++ [OUEnd false; OBegin false; OTop false 5 [97; 98]; OIter 0 5 1 [121] [123]; OSeek 0 [97]])) (ONext 0))
+    = RIter false None [].
+Proof. exact seek_below_range_unfixed_refuted. Qed.
+Print Assumptions C11_seek_below_range_unfixed_refuted.
+
+(* what a write-transaction iterator is NOT, also after the repair (reproduces on the Go code).  Committed in bucket a:
+   k = v, m = w.  A write transaction deletes k, overwrites m = x, puts b = y (Proofs5.stale_ops) and iterates the
+   bucket: Get(k) = nil, Get(m) = x, GetByPrefix("") = {m = x, b = y}, but Seek("") and four Next() answer
+   k = v (deleted), m = w (overwritten), b = y (a smaller key after a larger), m = x (m a second time), end. *)
+Theorem C11_write_iter_not_view_refuted :
+  Forall op_bytes stale_ops /\
+  snd (step (run stale_ops) (OGet 0 [107])) = RNil /\
+  snd (step (run stale_ops) (OGet 0 [109])) = RVal [120] /\
+  snd (step (run stale_ops) (OPfx 0 [])) = REntries [([109], [120]); ([98], [121])] /\
+  snd (step (run stale_ops) (OSeek 0 [])) = RIter true (Some [107]) [118] /\
+  snd (step (run (stale_ops ++ [OSeek 0 []])) (ONext 0)) = RIter true (Some [109]) [119] /\
+  snd (step (run (stale_ops ++ [OSeek 0 []; ONext 0])) (ONext 0)) = RIter true (Some [98]) [121] /\
+  snd (step (run (stale_ops ++ [OSeek 0 []; ONext 0; ONext 0])) (ONext 0)) = RIter true (Some [109]) [120] /\
+  snd (step (run (stale_ops ++ [OSeek 0 []; ONext 0; ONext 0; ONext 0])) (ONext 0)) = RIter false None [].
+Proof. exact write_iter_not_view_refuted. Qed.
+Print Assumptions C11_write_iter_not_view_refuted.
+
 (* ---- non-vacuity: the hypotheses are met by concrete reachable states, and the model computes *)
 Definition ex_ops : list op :=
   [OBegin true; OCreateTop 0 [97]; OPut 0 [107; 95; 255] [118]; ONew 1 0 [50]; OPut 1 [98; 95; 107] [119]; OCommit;
@@ -503,4 +599,23 @@ Proof.
     + intros h vs b H. vm_compute in H. inversion H; subst. exists [[97]; [120]].
       split; [split; [split; [discriminate|split; [repeat constructor|solve_bytes]]|split; vm_compute; reflexivity]|vm_compute; discriminate].
   - vm_compute. eexists. split; [reflexivity|discriminate].
+Qed.
+
+(* ---- non-vacuity of C11_seek_write_tx: the state of Proofs5.stale_ops (non-empty committed store, open write
+   transaction with puts and a delete) meets its hypotheses, and there the theorem's two runs are
+   A = [k = v; m = w] and B = [b = y; m = x] *)
+Example C11_ex_seek_write_tx :
+  exists b, st_wtx (run stale_ops) = Some b /\ b_log b <> [] /\ st_store (run stale_ops) <> [] /\
+    keys_sorted (st_store (run stale_ops)) /\ keys_bytes (st_store (run stale_ops)) /\ batch_wf b /\ keys_bytes (b_puts b) /\
+    let r := iter_seek (new_iterator (st_store (run stale_ops)) (Some b) (mkHandle [49; 95; 97] 1) [] []) [] in
+    iter_current (snd r) ++ drain 10 (snd r) = [([107], [118]); ([109], [119])] ++ [([98], [121]); ([109], [120])].
+Proof.
+  destruct write_iter_not_view_refuted as [Hbytes _].
+  pose proof (run_idx_inv true stale_ops Hbytes) as [[Hsorted [Hwf _]] [Hs [Hidx _]]].
+  unfold run.
+  destruct (st_wtx (exec true init_state stale_ops)) as [b|] eqn:E; [|vm_compute in E; discriminate].
+  exists b. split; [reflexivity|]. split; [intros Hl; vm_compute in E; inversion E; subst b; vm_compute in Hl; discriminate|].
+  split; [vm_compute; discriminate|]. split; [exact Hsorted|]. split; [apply store_ok_keys_bytes; exact Hs|].
+  split; [exact Hwf|]. split; [apply batch_idx_ok_keys_bytes; apply Hidx|].
+  vm_compute in E. inversion E; subst b. vm_compute. reflexivity.
 Qed.
